@@ -154,7 +154,9 @@ func (s *objectStore) flush(db *DB) (err error) {
 }
 
 type DB struct {
-	l       sync.RWMutex
+	l sync.RWMutex
+	// protects schemas, which are lazily loaded by readers
+	sl      sync.Mutex
 	ctx     context.Context
 	cancel  context.CancelFunc
 	root    string
@@ -287,6 +289,11 @@ func (db *DB) safeAsyncWState(s *Schema) (n int, async Async, enabled bool) {
 
 func (db *DB) schema(of Object) (s *Schema, err error) {
 	var ok bool
+
+	// several readers may load the schema (and start the async
+	// writes routine) at the same time
+	db.sl.Lock()
+	defer db.sl.Unlock()
 
 	if s, ok = db.schemas[stype(of)]; ok {
 		db.startAsyncWritesRoutine(s)
